@@ -46,30 +46,37 @@ structure Counters where
   accept2 : Nat := 0
 deriving DecidableEq, Repr
 
+/-- level 1: `Acked` from the first key, `acceptN` from the last with the wrap rule (request.go:906-925) -/
+def recon1 (alo : List Nat) : Nat × Nat :=
+  match alo.head?, alo.getLast? with
+  | some f, some l =>
+    let a := f % idMod
+    (a, (if l % idMod < a then l % idMod + idMod else l % idMod) + 1)
+  | _, _ => (0, 0)
+
+/-- level 2: `Completed` and `Received` (request.go:933-944) -/
+def recon2cr (eo rel : List Nat) : Nat × Nat :=
+  match rel.head?, rel.getLast? with
+  | some f, some l =>
+    let c := f % idMod
+    let r := l % idMod + 1
+    (c, if r ≤ c then r + idMod else r)
+  | _, _ =>
+    match eo.head? with
+    | some f => (f % idMod, f % idMod)
+    | none => (0, 0)
+
+/-- level 2: `acceptN` (request.go:946-957) -/
+def recon2a (eo : List Nat) (received : Nat) : Nat :=
+  match eo.getLast? with
+  | some l => (if l % idMod < received then l % idMod + idMod else l % idMod) + 1
+  | none => received
+
 /-- counter reconstruction from the cleaned key lists -/
 def reconstruct (alo eo rel : List Nat) : Counters :=
-  let (acked, accept1) :=
-    match alo.head?, alo.getLast? with
-    | some f, some l =>
-      let a := f % idMod
-      let last := if l % idMod < a then l % idMod + idMod else l % idMod
-      (a, last + 1)
-    | _, _ => (0, 0)
-  let (completed, received) :=
-    match rel.head?, rel.getLast? with
-    | some f, some l =>
-      let c := f % idMod
-      let r := l % idMod + 1
-      (c, if r ≤ c then r + idMod else r)
-    | _, _ =>
-      match eo.head? with
-      | some f => (f % idMod, f % idMod)
-      | none => (0, 0)
-  let accept2 :=
-    match eo.getLast? with
-    | some l => (if l % idMod < received then l % idMod + idMod else l % idMod) + 1
-    | none => received
-  { acked, accept1, completed, received, accept2 }
+  let (acked, accept1) := recon1 alo
+  let (completed, received) := recon2cr eo rel
+  { acked, accept1, completed, received, accept2 := recon2a eo received }
 
 inductive AdoptFatal | deny | load | limit | panic
 deriving DecidableEq, Repr
@@ -120,22 +127,29 @@ def classify (delFails : Nat → Bool) : List Nat → Classified → Classified
           else if t == Facts.typePUBREL then classify delFails rest { c with rel := c.rel ++ [(key, seq)] }
           else classify delFails rest c
 
+/-- the PUBREL→PUBLISH gap rule (request.go:887-894): without continuity the PUBRELs are dropped -/
+def relRule (eo rel : List Nat) : List Nat × List Warn :=
+  match eo.head?, rel.head?, rel.getLast? with
+  | some n, some rf, some rl => if consecutive rl n then (rel, []) else ([], [Warn.relGap rf rl n])
+  | _, _, _ => (rel, [])
+
+/-- sort by storage sequence number, clean each sequence, apply the gap rule -/
+def cleanLists (c : Classified) : List Nat × List Nat × List Nat × List Warn :=
+  let a := cleanSeq ((sortBy (·.2) c.alo).map (·.1))
+  let e := cleanSeq ((sortBy (·.2) c.eo).map (·.1))
+  let r := cleanSeq ((sortBy (·.2) c.rel).map (·.1))
+  let r' := relRule e.1 r.1
+  (a.1, e.1, r'.1, a.2 ++ e.2 ++ r.2 ++ r'.2)
+
 /-- AdoptSession after `Config.valid` (the deny rules are in `Cfg.valid`). -/
 def adopt (store : Store) (max1 max2 : Int) (delFails : Nat → Bool := fun _ => false) :
     Except AdoptFatal Adopted :=
   let c := classify delFails store.sortedKeys { store := store }
   if c.panic then .error .panic else
-  let (alo, w1) := cleanSeq ((sortBy (·.2) c.alo).map (·.1))
-  let (eo, w2) := cleanSeq ((sortBy (·.2) c.eo).map (·.1))
-  let (rel, w3) := cleanSeq ((sortBy (·.2) c.rel).map (·.1))
-  let (rel, w4) :=
-    match eo.head?, rel.head?, rel.getLast? with
-    | some n, some rf, some rl =>
-      if consecutive rl n then (rel, []) else ([], [Warn.relGap rf rl n])
-    | _, _, _ => (rel, [])
-  if alo.length > normMax max1 then .error .limit
-  else if eo.length + rel.length > normMax max2 then .error .limit
-  else .ok { store := c.store, warns := c.warns ++ w1 ++ w2 ++ w3 ++ w4, alo, eo, rel,
-             ctr := reconstruct alo eo rel, maxSeq := c.maxSeq }
+  let l := cleanLists c
+  if l.1.length > normMax max1 then .error .limit
+  else if l.2.1.length + l.2.2.1.length > normMax max2 then .error .limit
+  else .ok { store := c.store, warns := c.warns ++ l.2.2.2, alo := l.1, eo := l.2.1, rel := l.2.2.1,
+             ctr := reconstruct l.1 l.2.1 l.2.2.1, maxSeq := c.maxSeq }
 
 end Model
